@@ -191,6 +191,9 @@ def body(ctx, H, prim):
         name, src = make_source(ctx, H)
         n = 1 + H.draw(6)
         ws = [H.pick([0, 0, 1, 1, 2, 0.5, 0.25, 3, 90, 1e-5, 0.1]) for _ in range(n)]
+        if H.draw(5) == 0:
+            # every positive weight below the chooser's resolution (1e-5): still never a zero-weight option
+            ws = [H.pick([0, 0, 1e-7, 3e-6, 2e-9]) for _ in range(n)]
         if not any(ws):
             ws[H.draw(n)] = 1
         shape = H.draw(4)
@@ -381,11 +384,29 @@ def body(ctx, H, prim):
         return
     if prim == "same_seed":
         seed = H.draw(10**6)
-        a, b2 = NativeRandomSource(seed), NativeRandomSource(seed)
+        twin_kind = H.pick(["native", "native", "ge", "sge", "stack"])
+        if twin_kind == "native":
+            a, b2 = NativeRandomSource(seed), NativeRandomSource(seed)
+        else:
+            # twin sources reading the same genes are the same stream too (that is what makes a genotype denote one program)
+            from geneticengine.representations.grammatical_evolution.ge import ListWrapper as GEW
+            from geneticengine.representations.grammatical_evolution.structured_ge import StructuredListWrapper as SGW, INFRASTRUCTURE_KEY
+            from geneticengine.representations.stackgggp import ListWrapper as STW
+
+            dna = gene_list(H)
+            mk = {"ge": lambda: GEW(list(dna)), "stack": lambda: STW(list(dna)), "sge": lambda: SGW({INFRASTRUCTURE_KEY: list(dna), "other": [1, 2, 3]})}[twin_kind]
+            a, b2 = mk(), mk()
+        ctx.sample.update({"twin_sources": twin_kind})
+        # a third, unrelated source is used in between (history: nothing of it may show in the twins)
+        third = NativeRandomSource(seed + 1) if H.draw(2) else SimRandom(ctx, "uniform", name="third", log=False)
         ctx.nontrivial = True
         for _ in range(20):
             op = H.draw(5)
             lo, hi = H.pick(BOUNDS)
+            if H.draw(3) == 0:
+                third.normalvariate(0, 1)
+                third.randint(0, 9)
+                ctx.faults["carry_over"] += 1
             if op == 0:
                 x, y = a.randint(lo, hi), b2.randint(lo, hi)
             elif op == 1:
@@ -397,6 +418,6 @@ def body(ctx, H, prim):
             else:
                 x, y = a.choice_weighted([1, 2, 3], [1, 2, 3]), b2.choice_weighted([1, 2, 3], [1, 2, 3])
             if x != y:
-                ctx.violate("C18/same-seed-different-stream", f"two NativeRandomSource({seed}) diverged: {x!r} vs {y!r}")
+                ctx.violate(f"C18/same-seed-different-stream/{twin_kind}", f"two {twin_kind} sources built from the same seed / genes diverged: {x!r} vs {y!r}")
                 return
         return
